@@ -242,7 +242,7 @@ PROPS["C01"] = dict(
     level="proof",
     level_text="PARTIAL: proof (Verus on the extracted real bodies) that the typing rules of binary operators, if/else and `!` are sound w.r.t. the runtime helpers' kind table: every value the runtime can produce for operands of the operand kinds belongs to the reported kind. Does not decide type soundness of whole programs.",
     text="type soundness, operator/control-flow core: Op::type_info, IfStatement::type_info, Not::type_info against the kind table of the runtime helpers",
-    verus=["v_op_types", "v_control_types", "v_block_types", "v_assign_types"],
+    verus=["v_op_types", "v_control_types", "v_block_types", "v_assign_types", "v_constants"],
     kani=["k_optable_add", "k_optable_sub", "k_optable_mul", "k_optable_lt"],
     kani_quick=[],
     trusted=TY_TRUSTED, not_covered=TY_NOT_COVERED,
